@@ -179,13 +179,14 @@ func doCacheOp(cr interface {
 }
 
 type cacheRun struct {
-	Recs    [][]copRec
-	Final   string
-	Steps   []StepRec
-	Hash    uint64
-	Overrun bool
-	States  []uint64
-	Between []string
+	Recs      [][]copRec
+	Final     string
+	Steps     []StepRec
+	Hash      uint64
+	Overrun   bool
+	Abandoned bool
+	States    []uint64
+	Between   []string
 }
 
 func runCacheOps(sc *Scenario) *cacheRun {
@@ -243,6 +244,7 @@ func runCacheOps(sc *Scenario) *cacheRun {
 	}
 	ok := s.Run(sc.Sites, bodies)
 	out.Steps, out.Hash, out.Overrun = s.Steps, s.ScheduleHash(), !ok
+	out.Abandoned = s.Abandoned(sc)
 	ks, _ := cr.VerifKeys()
 	out.Final = strings.Join(ks, ",")
 	return out
@@ -306,6 +308,10 @@ func checkC14Ops(sc *Scenario) *CheckOut {
 	out.Res = &RunResult{W: &World{}, Steps: run.Steps, SchedHash: run.Hash, Overrun: run.Overrun, States: run.States}
 	fail := func(class, format string, a ...any) {
 		out.Viol = append(out.Viol, Violation{"C14", class, fmt.Sprintf("capacity %d: ", sc.CacheCap) + fmt.Sprintf(format, a...), ""})
+	}
+	if run.Abandoned {
+		out.Faults["pre-run-abandoned"]++
+		return out
 	}
 	if run.Overrun {
 		fail("no-progress", "run exceeded its step bound")
@@ -495,6 +501,10 @@ func checkC14Router(sc *Scenario) *CheckOut {
 	res := RunConcurrent(sc)
 	out.Res = res
 	if res.W.regPanic != "" {
+		return out
+	}
+	if res.Abandoned {
+		out.Faults["pre-run-abandoned"]++
 		return out
 	}
 	if res.Overrun {
